@@ -175,7 +175,23 @@ def laws(s, g, W, opts):
     reorder = n <= lim and (order == 2 or (order == 1 and any(c > 127 for c in cps)))
     if not reorder and vis != list(range(n)):
         bad.append(('order-off:reordered', 'order=%d lim=%d: line was reordered although reordering does not apply' % (order, lim)))
+    if reorder and len(set(pos)) == n:
+        # ... and where it applies, the cells run in the order the bidi reference (C18) gives
+        import c18
+        global _R2L
+        if _R2L is None:
+            _R2L = (set(tables.conf_macro('CR2L') or ''), set(tables.conf_macro('CNEUT') or ''))
+        body = s
+        ctx = c18.model_ctx(body, td, _R2L[0])
+        exp = c18.model_ord(body, ctx, _R2L[0], _R2L[1]) if _R2L[0] else None
+        if exp is not None and len(body) <= 120:
+            want = sorted(range(n), key=lambda i: exp[i])
+            if vis != want:
+                bad.append(('order-on:not-reordered', 'order=%d td=%d: characters laid out in the order %s, the reordering applies and gives %s' % (order, td, vis, want)))
     return bad
+
+
+_R2L = None
 
 
 def check_lines(args):
